@@ -24,6 +24,8 @@ fn dispatch(op: &str, a: &[&str]) -> String {
         "generator" => rs::generator(a),
         "rs_decode" => rs::rs_decode(a),
         "plan" => plan::plan(a),
+        "encode" => plan::encode(a),
+        "encode_str" => plan::encode_str(a),
         "decode_data" => dec::decode_data(a),
         "decode_str" => dec::decode_str(a),
         "read_eci" => dec::read_eci(a),
